@@ -159,3 +159,23 @@ Theorem C16_inputs_unchanged_align : forall (A : Type) (h : heap A) r t,
   (wf h -> wf h' /\ forall p, (p < length (objs h))%nat -> deref h' p = deref h p).
 Proof. exact new_pose_spec. Qed.
 Print Assumptions C16_inputs_unchanged_align.
+
+(* Shared references in the inputs (one Pose instance at several positions of cf_poses / under several base-station
+   ids; one array used as the translation of two Pose instances): the per-entry shallow copy gives every position its
+   own fresh object (the result references are pairwise distinct), a repeated input is scaled exactly once per position,
+   and a shared translation array is left untouched while both copies get (separately allocated) scaled values. *)
+Theorem C16_scale_shared_references : forall (A : Type) (mul : A -> A) (h h' : heap A) os cs,
+  wf h -> Forall (fun o => (o < length (objs h))%nat) os ->
+  scale_system_h mul h os = Some (h', cs) ->
+  NoDup cs /\
+  (forall i j o, i <> j -> nth_error os i = Some o -> nth_error os j = Some o ->
+     exists ci cj, nth_error cs i = Some ci /\ nth_error cs j = Some cj /\ ci <> cj /\
+       deref h' ci = option_map (fun rt => (fst rt, mul (snd rt))) (deref h o) /\
+       deref h' cj = option_map (fun rt => (fst rt, mul (snd rt))) (deref h o)) /\
+  (forall i j oi oj obi obj_, nth_error os i = Some oi -> nth_error os j = Some oj ->
+     nth_error (objs h) oi = Some obi -> nth_error (objs h) oj = Some obj_ -> f_t obi = f_t obj_ ->
+     nth_error (arrs h') (f_t obi) = nth_error (arrs h) (f_t obi) /\
+     forall ci cj, nth_error cs i = Some ci -> nth_error cs j = Some cj ->
+       option_map snd (deref h' ci) = option_map snd (deref h' cj) \/ deref h oi = None \/ deref h oj = None).
+Proof. exact scale_system_h_shared. Qed.
+Print Assumptions C16_scale_shared_references.
